@@ -83,6 +83,26 @@ DERIVE = {
 }
 
 
+def _via(writer, reader, ext, **kw):
+    def f(d):
+        import os
+        import tempfile
+        import wavespectra
+        stamps = np.datetime64("2020-01-01T00:00:00") + (np.arange(d.sizes["time"]) * 10800).astype("timedelta64[s]")
+        ds = d.assign_coords(time=stamps).to_dataset(name="efth")
+        with tempfile.TemporaryDirectory() as tmp:
+            path = os.path.join(tmp, "x." + ext)
+            getattr(ds.spec, writer)(path, **kw)
+            out = getattr(wavespectra, reader)(path).load()
+        return out.efth
+    return f
+
+
+DERIVE.update({"via_swan": _via("to_swan", "read_swan", "spec"), "via_json": _via("to_json", "read_json", "json"),
+               "via_netcdf": _via("to_netcdf", "read_netcdf", "nc", ncformat="NETCDF3_64BIT", compress=False, packed=False),
+               "via_octopus": _via("to_octopus", "read_octopus", "oct")})
+
+
 def fresh(x):
     """a freshly constructed object with the same labelled values: new C-contiguous buffer, leading dimensions first, own coordinate
     arrays, no scalar coordinates, no attributes; the dtype is kept (it is part of the contents)."""
